@@ -23,13 +23,30 @@ PROP = Property(
             H("c03_has_gap_with_contract", "contract", "#[kani::ensures] on the real Epoch::has_gap_with: result == (abs_diff > 1)", ["Epoch::has_gap_with"]),
         ])],
     verus=[VerusUnit("signer_gate", "verus/C20/signer_gate.tmpl.rs",
-                     "extracted text of the signer's gate MithrilEpochService::can_signer_sign_current_epoch (+ accessors): Ok(true) ==> key material (protocol initializer) is stored for the epoch AND the epoch's current signer list "
-                     "names this party with exactly that initializer's verification key - the signer never signs before it has registered keys eligible for the current epoch",
-                     ["MithrilEpochService::can_signer_sign_current_epoch", "MithrilEpochService::is_signer_included_in_current_stake_distribution", "MithrilEpochService::{unwrap_data, epoch_of_current_data, protocol_initializer, current_signers}"])],
+                     "extracted text of the signer's MithrilEpochService (mithril-signer/src/services/epoch_service.rs): can_signer_sign_current_epoch Ok(true) ==> key material (protocol initializer) is stored for the epoch AND the epoch's "
+                     "current signer list names this party with exactly that initializer's verification key - the signer never signs before it has registered keys eligible for the current epoch; "
+                     "inform_epoch_settings(e) Ok ==> e >= 1 and the key material in force is what the signer saved under the signer-retrieval epoch e - 1, signer lists and registration parameters are the ones handed in; "
+                     "current_signers_with_stake / next_signers_with_stake use the stakes saved under e - 1 / e",
+                     ["signer MithrilEpochService::can_signer_sign_current_epoch", "signer MithrilEpochService::is_signer_included_in_current_stake_distribution",
+                      "signer MithrilEpochService::inform_epoch_settings", "signer MithrilEpochService::{current_signers_with_stake, next_signers_with_stake}",
+                      "signer MithrilEpochService::{unwrap_data, epoch_of_current_data, protocol_initializer, current_signers, next_signers}"]),
+           VerusUnit("aggregator_epoch_service", "verus/C20/aggregator_epoch_service.tmpl.rs",
+                     "extracted text of the aggregator's MithrilEpochService (mithril-aggregator/src/services/epoch_service.rs): inform_epoch(e) Ok ==> e >= 1, the signer set in force is the one recorded in the "
+                     "verification-key store under e - 1 (signer-retrieval epoch), the next signer set the one recorded under e, the configuration is the provider's for e, the registration settings are saved under the "
+                     "recording epoch e + 1, previously computed keys are dropped; update_next_signers_with_stake re-reads the set recorded under e and recomputes; precompute_epoch_data Ok ==> both aggregate keys and "
+                     "multi-signers are SignerBuilder's results for exactly (current signers, parameters for aggregation) and (next signers, parameters for next aggregation) (also the aggregator path of C06)",
+                     ["aggregator MithrilEpochService::inform_epoch", "aggregator MithrilEpochService::update_next_signers_with_stake", "aggregator MithrilEpochService::precompute_epoch_data",
+                      "aggregator MithrilEpochService::get_signers_with_stake_at_epoch", "aggregator MithrilEpochService::unwrap_data"])],
+    replays=[dict(crate="mithril-aggregator", file="mithril-aggregator/src/services/epoch_service.rs", module="replays/c20_aggregator_epoch_service.rs"),
+             dict(crate="mithril-signer", file="mithril-signer/src/services/epoch_service.rs", module="replays/c20_signer_epoch_service.rs")],
     assumptions=[
         "signer_gate: the `.iter().any(closure)` over the signer list is a contract fn; key equality (ProtocolKey ==) is an uninterpreted relation; debug!/warn! statements removed; that the state machine consults this gate before signing is read off the source (mithril-signer runtime/runner.rs can_sign_current_epoch)",
         "only the epoch-offset algebra shared by signer and aggregator and the signer-side eligibility gate are decided; epochs < 2^63 - 8 (offset_by casts to i64; real epochs are < 2^32)",
-        "that signer (runner.rs, epoch_service.rs) and aggregator (signer_registration_store.rs, single_signature_repository.rs, runner.rs) key their stores with these very functions is read off the source (call sites listed in DESIGN.md), not proved",
+        "both epoch services are under contract for WHICH offset function keys WHICH store access (units signer_gate and aggregator_epoch_service; the offset functions are callee contracts there, proved on the real code by the Kani unit); "
+        "the signer's runner (register_signer_to_aggregator / update_stake_distribution: key material and stakes saved under offset_to_recording_epoch) and the aggregator's signer_registration_store / single_signature_repository call sites are read off the source, not proved",
+        "epoch-service units: stores, providers and the era checker (async trait objects) are contract stubs over uninterpreted functions of their content; `.await`, debug!, with_context(..) removed; iterator expressions replaced by contract fns "
+        "(Signer::vec_from(x.clone()), stake sums, discriminant intersection, Option::as_mut field assignment, associate_signers_with_stake); Option<..SigningConfig> / BTreeSet fields are opaque Clone types; "
+        "inform_epoch requires epoch < u64::MAX (offset_to_recording_epoch adds 1)",
     ],
     explanation="Relational lemmas over the real Epoch offset functions for all epochs: a consistent renumbering of the constants still verifies, an off-by-one on either side fails.",
     not_decided=["at-most-once signing per beacon", "signing only after registration", "restart behaviour", "acceptance by the aggregator at run level (async state machines over SQLite)"],
